@@ -21,3 +21,16 @@ TWINS = [
     T("sorted-via-variable", X + "open_office/odt_extractor.py", "    return sorted(styles)\n", "    ordered = sorted(styles)\n    return ordered\n"),
     T("observer-builds-fresh-list", D, "        \"\"\"All text from this slide combined.\"\"\"\n        parts = []\n        if self.title:\n            parts.append(self.title)\n        parts.extend(self.body_text)\n        parts.extend(self.other_text)\n        return \"\\n\".join(parts)\n\n\n@dataclass\nclass OdpContent", "        \"\"\"All text from this slide combined.\"\"\"\n        parts = list(self.body_text)\n        if self.title:\n            parts.insert(0, self.title)\n        parts.extend(self.other_text)\n        return \"\\n\".join(parts)\n\n\n@dataclass\nclass OdpContent"),
 ]
+
+# --- seeded changes kept under /verif/seeded (sub-agents saw only the property text); each must be reported by the named rule
+import os as _os
+from sa.selftest.harness import P as _P
+_SEEDS = _os.path.join(_os.path.dirname(_os.path.dirname(_os.path.dirname(_os.path.abspath(__file__)))), "seeded")
+SEEDED = [
+    ("C06-1", "C06-ORDER"),
+    ("C06-2", "C06-STREAM"),
+    ("C06-3", "C06-INPUT"),
+    ("C06-4", "C06-ORDER"),
+    ("C06-5", "C06-PURE"),
+]
+MUTANTS = list(MUTANTS) + [_P("seed-" + sid, _os.path.join(_SEEDS, sid, "patch.diff"), rule) for sid, rule in SEEDED if _os.path.exists(_os.path.join(_SEEDS, sid, "patch.diff"))]
